@@ -38,7 +38,25 @@ TIERS = {
 RUN_LIMIT_S = {'C11': 120}
 
 
+def gen_huge_case(rnd):
+    """an attribute with more than 2^16 values whose high codes carry all the mass (potentials are rebuilt from `huge` at run time)"""
+    size = rnd.choice([66000, 70000, 131100])
+    lo = size - rnd.choice([100, 4000])
+    return dict(engine='E', kind='huge', attrs=['g', 'x'], sizes=[2, size], cliques=[['x'], ['g']], huge=dict(lo=lo, seed=rnd.getrandbits(32)), pots=None, pots2=None,
+                total=rnd.choice([1.0, 500.0]), elim=None, method=rnd.choice(['round', 'sample']), rows=rnd.choice([50, 1000]), rows2=None, cache=None, roundtrip=None,
+                policy=dict(name='faithful', rates={}, shuffle='random'), rng_seed=rnd.getrandbits(32), fold='harness')
+
+
+def expand_huge(case):
+    r = random.Random(case['huge']['seed'])
+    size, lo = case['sizes'][1], case['huge']['lo']
+    px = [float('-inf')] * lo + [r.gauss(0, 1.0) for _ in range(size - lo)]
+    return dict(case, pots=[px, [r.gauss(0, 1.0), r.gauss(0, 1.0)]])
+
+
 def gen_case(rnd, prop, tier):
+    if rnd.random() < 0.01:
+        return gen_huge_case(rnd)
     n = rnd.choice([1, 2, 3, 3, 4, 4, 5, 5, 6])
     attrs = gen.gen_names(rnd, n)
     sizes = gen.gen_sizes(rnd, n, max_size=4, max_joint=4096)
@@ -87,12 +105,12 @@ def gen_case(rnd, prop, tier):
             shape = [sizes[attrs.index(a)] for a in cl]
             pots2.append(gen.gen_potential(rnd, shape, scale, ninf, [witness[a] for a in cl]))
     return dict(engine='E', attrs=attrs, sizes=sizes, cliques=cliques, kind=kind, pots=pots, pots2=pots2, total=total, elim=elim, method=method,
-                rows=rows, rows2=rows2, cache=cache, policy=dict(name=pol, rates=rates, shuffle=shuffle), rng_seed=rnd.getrandbits(32), fold='harness')
+                rows=rows, rows2=rows2, cache=cache, roundtrip=rnd.choice([None, None, None, 'pickle', 'deepcopy']), policy=dict(name=pol, rates=rates, shuffle=shuffle), rng_seed=rnd.getrandbits(32), fold='harness')
 
 
 def sample_view(case):
     c = dict(case)
-    c['pots'] = '<%d potential tables>' % len(case['pots'])
+    c['pots'] = '<%d potential tables>' % len(case['pots']) if case.get('pots') else None
     return c
 
 
@@ -133,6 +151,10 @@ def make_model(mbi, case, probes):
             model.calculate_many_marginals([tuple(case['attrs'][:2])])
     if hasattr(model, 'marginals'):
         probes['model-with-cached-marginals'] = 1
+    if case.get('roundtrip'):
+        import pickle, copy as _copy
+        model = pickle.loads(pickle.dumps(model)) if case['roundtrip'] == 'pickle' else _copy.deepcopy(model)
+        probes['model-through-' + case['roundtrip']] = 1
     return model
 
 
@@ -284,6 +306,8 @@ def run_once(mbi, case, model, rows, viol, faults, probes, seqs, tag, key='pots'
 
 def run_case(case, prop):
     mbi = core.load_mbi()
+    if case.get('kind') == 'huge':
+        case = expand_huge(case)
     viol, faults, probes, seqs = [], {}, {}, []
     steps = 0
     nontrivial = False
@@ -314,6 +338,8 @@ def run_case(case, prop):
         dg = core.digest([v['sig'] for v in viol])
     if any(np.isneginf(np.array(p, dtype=float)).any() for p in case['pots'] if len(p)):
         probes['zero-probability-cells'] = 1
+    if case.get('kind') == 'huge':
+        probes['attribute-with->65535-values'] = 1
     rc = 'default' if case['rows'] is None else ('1' if case['rows'] == 1 else ('small' if case['rows'] < 100 else ('1e3' if case['rows'] < 10000 else 'big')))
     measure = [a_bp.hypergraph(case), case['method'], rc, case['policy']['name'], case['policy']['shuffle'], seqs]
     seen, uniq = set(), []
@@ -325,6 +351,12 @@ def run_case(case, prop):
 
 
 def shrink(case, prop):
+    if case.get('kind') == 'huge':
+        return
+    if case.get('roundtrip'):
+        c = copy.deepcopy(case)
+        c['roundtrip'] = None
+        yield c
     if case.get('pots2'):
         c = copy.deepcopy(case)
         c['pots2'] = None
